@@ -87,7 +87,11 @@ def md_footnotes_hook(
         return result
 
     children = [parse_footnote_item(md.block, k, i + 1, state) for i, k in enumerate(notes)]
+    ref_links = state.env.get("ref_links")
     state = BlockState()
+    if ref_links:
+        # the text of a note is part of the document: link reference definitions apply to it
+        state.env["ref_links"] = ref_links
     state.tokens = [{"type": "footnotes", "children": children}]
     output = md.render_state(state)
     return result + output  # type: ignore[operator]
